@@ -816,3 +816,33 @@ pub fn with_clock<T>(clock: Clock, f: impl FnOnce() -> T) -> T {
     CTX.with(|c| c.borrow_mut().program_stack.clear());
     r
 }
+
+/// Build real `AccountInfo`s (loader layout, so realloc/assign work) for direct calls of public
+/// program functions that take account infos (oracle adapters); `f` runs under the given clock.
+pub fn with_account_infos<T>(clock: Clock, accts: &[(Pubkey, Acct)], f: impl FnOnce(&'static [AccountInfo<'static>]) -> T) -> T {
+    init();
+    let mut work: BTreeMap<Pubkey, Arc<Acct>> = BTreeMap::new();
+    for (k, a) in accts {
+        work.insert(*k, Arc::new(a.clone()));
+    }
+    let metas: Vec<(Pubkey, bool, bool)> = accts.iter().map(|(k, _)| (*k, false, false)).collect();
+    let mut m = marshal(&work, &marginfi::ID, &metas, &[]);
+    let base = m.buf.as_mut_ptr() as *mut u8;
+    CTX.with(|c| {
+        let mut c = c.borrow_mut();
+        c.clock = clock;
+        c.stack_height = 1;
+        c.program_stack.clear();
+        c.program_stack.push(marginfi::ID);
+    });
+    let r = unsafe {
+        let (_pid, accounts, _data) = solana_program::entrypoint::deserialize(base);
+        let accounts_static: &'static [AccountInfo<'static>] = std::mem::transmute(accounts.as_slice());
+        let r = f(accounts_static);
+        drop(accounts);
+        r
+    };
+    CTX.with(|c| c.borrow_mut().program_stack.clear());
+    drop(m);
+    r
+}
